@@ -37,6 +37,14 @@ theorem refOutCredit_prefix : ∀ (ds rest : List Desc) (cr : Nat), noGarb ds = 
       rw [e1] at hn ⊢
       have := ih rest cr hngt (by omega)
       simp only [List.cons_append, refOutCredit, this, expectedOut, List.flatMap_cons, List.append_assoc]
+    | unser ow =>
+      cases ow with
+      | false => simp [noGarb] at hng
+      | true =>
+        have e1 : need (.unser true :: t) = need t := by simp [need, need1]
+        rw [e1] at hn ⊢
+        have := ih rest cr hngt (by omega)
+        simp only [List.cons_append, refOutCredit, this, expectedOut, List.flatMap_cons, List.append_assoc]
 
 theorem refOutCredit_dry (cr n p : Nat) (tail : List Desc) (h : cr < n + 1) :
     refOutCredit cr (.sub n p :: tail) = ((itemsOf n p).take cr).map tokOf := by
